@@ -105,7 +105,7 @@ def run(ck):
             S = S @ G
         return S
 
-    nk = ck.n(40, 500)
+    nk = ck.n(40, 160)
     for h in range(nk):
         n = rng.choice([1, 2, 2, 3, 3, 4]) if not ck.quick else rng.choice([1, 2, 2, 3, 3])
         nb = rng.randint(1, 3)
